@@ -15,6 +15,7 @@ import (
 	"strconv"
 	"strings"
 	"sync"
+	"sync/atomic"
 )
 
 // OpKind is the kind of a pending operation.
@@ -620,6 +621,9 @@ type RWMutex struct {
 	real    sync.RWMutex
 	writer  bool
 	readers int
+	// realW / realR count acquisitions of the real lock: an unlock that arrives from a goroutine the scheduler no
+	// longer controls (a thread unwinding after an abort) releases the real lock only if it is held
+	realW, realR int32
 }
 
 func one(ok bool) []int {
@@ -634,6 +638,7 @@ func (m *RWMutex) Lock() {
 	t := Current()
 	if t == nil {
 		m.real.Lock()
+		atomic.AddInt32(&m.realW, 1)
 		return
 	}
 	if m.writer || m.readers > 0 {
@@ -646,7 +651,12 @@ func (m *RWMutex) Lock() {
 // Unlock unlocks a write lock.
 func (m *RWMutex) Unlock() {
 	if Current() == nil {
-		m.real.Unlock()
+		if atomic.LoadInt32(&m.realW) > 0 {
+			atomic.AddInt32(&m.realW, -1)
+			m.real.Unlock()
+			return
+		}
+		m.writer = false // an aborted thread releasing a model lock while it unwinds
 		return
 	}
 	m.writer = false
@@ -657,6 +667,7 @@ func (m *RWMutex) RLock() {
 	t := Current()
 	if t == nil {
 		m.real.RLock()
+		atomic.AddInt32(&m.realR, 1)
 		return
 	}
 	if m.writer {
@@ -669,7 +680,14 @@ func (m *RWMutex) RLock() {
 // RUnlock unlocks a read lock.
 func (m *RWMutex) RUnlock() {
 	if Current() == nil {
-		m.real.RUnlock()
+		if atomic.LoadInt32(&m.realR) > 0 {
+			atomic.AddInt32(&m.realR, -1)
+			m.real.RUnlock()
+			return
+		}
+		if m.readers > 0 {
+			m.readers--
+		}
 		return
 	}
 	m.readers--
